@@ -39,7 +39,8 @@ RULE = ("random interleavings of ALL public mutating calls with a fresh dyadic b
         "the matching relation between before and after, Consistent after, Legal after, and recomputes the fold output; the Rust oracle "
         "propagates independently. Regression modes: raw swap with unequal cutoffs then a sweep (F16), zero-word probing of every RVB draw (F12). "
         "Also: generic samplers with symmetry-breaking single-variable field terms registered first/middle/last among symmetric and constant terms; "
-        "serial tempering ladders mixing a zero-field replica with field replicas of one sign (>= 30 rounds of [steps; tempering_step], every "
+        "interactions with constant diagonal but non-constant matrix ([c,c] shifts, [a,b,b,a], two-site constant-diagonal full matrices) next to "
+        "symmetric and constant terms, constant flag recomputed from the matrix; serial tempering ladders mixing a zero-field replica with field replicas of one sign (>= 30 rounds of [steps; tempering_step], every "
         "replica judged with its own Hamiltonian after every call). Non-trivial = at least one operator before or after; distinct = distinct (call, Hamiltonian, before, after).")
 
 
